@@ -54,7 +54,7 @@ CHECKS.append({
     "design_ref": "DESIGN.md 5 (C19)",
     "technique": "Coq proof over name predicates and wrap expression regenerated from results._parse_injested_data (string reasoning for arbitrary "
                  "suffixes; real-analysis lemma for the wrap) + vm_compute / interval correspondence with the real routine on an xarray stand-in",
-    "text": "Seven theorems (Props/C19.v): for every suffix ''|'_'+anything, theta+suffix is wrapped; all 21 other profile/sky/loss parameter names + "
+    "text": "Ten theorems (Props/C19.v; the last three over the regenerated wrap formula: values in [0,pi) are fixed, the wrap is idempotent, and samples differing by any multiple of pi are reported identically): for every suffix ''|'_'+anything, theta+suffix is wrapped; all 21 other profile/sky/loss parameter names + "
             "marker-free suffix pass through unchanged; *_poly_coeff and bspl_w_* pass through; *_base/_auto_loc/unwrapped are dropped; model* is "
             "moved to .models unwrapped; wrap(x) is in [0,pi) and equals x + k*pi.  Predicates and wrap expression are re-extracted on each run; "
             "the per-variable fate of the real routine over generated configurations is proved equal to the model's by vm_compute and the wrapped "
